@@ -45,6 +45,11 @@ func checkScannerLoopState(p *Program, r *Report, rule string) {
 	loops := 0
 	for _, f := range fns {
 		for _, h := range loopHeaders(f) {
+			// a loop over a list of names (range over a []string) is no scan of the text: an accumulator over the
+			// names ("all of them are void") is what such a loop is for
+			if rangesOverStrings(h) {
+				continue
+			}
 			loops++
 			var carried []string
 			for _, in := range h.Instrs {
@@ -67,4 +72,30 @@ func checkScannerLoopState(p *Program, r *Report, rule string) {
 	if loops == 0 {
 		r.Undec(rule, "template.transitionFunc#loops", "", "no scanning loop found in the transition functions")
 	}
+}
+
+// rangesOverStrings: the loop with header h iterates over a slice of strings by index (range over []string): its
+// condition compares the index with the length of such a slice.
+func rangesOverStrings(h *ssa.BasicBlock) bool {
+	if len(h.Instrs) == 0 {
+		return false
+	}
+	iff, ok := h.Instrs[len(h.Instrs)-1].(*ssa.If)
+	if !ok {
+		return false
+	}
+	bo, ok := iff.Cond.(*ssa.BinOp)
+	if !ok {
+		return false
+	}
+	lv, ok := isLenOf(bo.Y)
+	if !ok {
+		return false
+	}
+	sl, ok := lv.Type().Underlying().(*types.Slice)
+	if !ok {
+		return false
+	}
+	b, ok := sl.Elem().Underlying().(*types.Basic)
+	return ok && b.Info()&types.IsString != 0
 }
